@@ -80,6 +80,17 @@ def eval_set(case):
             bad(f'delegations/{part}-differs', f'{did}: {w} -> {g} via {text}')
     if back.to_json() != text:
         bad('delegations/not-canonical', f'{text} vs {back.to_json()}')
+    # history: a decoded set belongs to its caller - re-keying / emptying it does not change the next decoding of the text
+    try:
+        scratch = Delegations.from_json(json_str=text, atype=T[t])
+        for d_ in list(scratch.delegations.values()):
+            d_.delegation_id = 'rekeyed-' + str(d_.delegation_id)
+        scratch.delegations.clear()
+        again = Delegations.from_json(json_str=text, atype=T[t])
+        if again is None or describe(again) != want:
+            bad('delegations/decode-not-repeatable', f'second decoding of {text} gives {None if again is None else describe(again)}')
+    except Exception as e:
+        bad('delegations/decode-not-repeatable', f'{type(e).__name__}: {e}')
     if describe(ds) != want:
         bad('delegations/encode-mutates', 'encoding changed the object')
     # decoding as the other type never yields this type's details
